@@ -17,9 +17,11 @@ import numpy as np
 from . import df_world as W
 
 LABELS = ("p", "q", "w", "u")
+RELABEL = ("a", "b", "c", "d", "p", "q")
 PAD_MODES = ("constant", "wrap", "edge")
 OPS = [("neg", 3), ("pos", 1), ("abs", 2), ("add", 4), ("mul", 3), ("mulnum", 2), ("comp", 3), ("lshift", 2), ("diff", 3),
        ("sub", 2), ("dot", 2), ("cross", 1), ("norm", 2), ("orientation", 1), ("integrate", 2), ("fromfield", 3), ("setsub", 2), ("q_meshclose", 1), ("q_fieldclose", 2), ("q_regionin", 1), ("q_aligned", 2),
+       ("q_eq", 2), ("q_mean", 2), ("q_call", 3), ("mean", 2), ("setvdims", 2),
        ("setvalid", 5), ("mutatevalid", 4), ("updateconst", 2), ("setarray", 2), ("writearray", 3),
        ("selplane", 3), ("selrange", 4), ("getsub", 3), ("getregion", 3), ("pad", 4), ("resample", 2),
        ("h5", 2), ("ovf", 1), ("vtk", 1), ("xarray", 2),
@@ -171,6 +173,25 @@ class Driver:
                 if op != "lshift" and (self._maxabs(f) > big or self._maxabs(g) > big):
                     continue
                 return self.call(op, x, y=y, dst=self.dst(x))
+            if op == "q_mean":
+                if self._maxabs(f) > 1e7:
+                    continue
+                return self.call(op, x, dst=x)
+            if op == "q_call":
+                return self.call(op, x, dst=x, a={"cell": rnd.randint(1, N)})
+            if op == "setvdims":
+                nv = int(f.nvdim)
+                lab = rnd.sample(RELABEL, nv)
+                r = rnd.random()
+                if r < 0.15 and nv > 1:
+                    lab[-1] = lab[0]
+                elif r < 0.25:
+                    lab = lab + [next(x for x in RELABEL if x not in lab)]
+                return self.call(op, x, dst=x, ip=True, a={"lab": lab})
+            if op == "mean":
+                if nd < 2:
+                    continue
+                return self.call(op, x, dst=self.dst(x), a={"d": rnd.randint(1, nd)})
             if op.startswith("q_"):
                 return self.call(op, x, y=rnd.choice(F), dst=x)
             if op == "sub":
